@@ -218,6 +218,7 @@ func vTree(r *vRand, depth int) []Node {
 
 // ---- grammar-based generator ----
 type vGen struct {
+	odd      bool
 	r        *vRand
 	macros   []string
 	snippets int
@@ -235,6 +236,9 @@ func (g *vGen) name() string {
 }
 
 func (g *vGen) arg() string {
+	if g.odd && g.r.chance(30) {
+		return []string{"mail.$(\u0434\u043e\u043c\u0435\u043d)/x", "$(\u0434\u043e\u043c\u0435\u043d)", "p$(a+b)q", "$(a+b)", "\"$(a+b) $(m0)\""}[g.r.intn(5)]
+	}
 	a := vArgAlphabet[g.r.intn(len(vArgAlphabet))]
 	if g.r.chance(88) {
 		a = vArgAlphabet[g.r.intn(6)]
@@ -314,6 +318,11 @@ func (g *vGen) config() string {
 		}
 		b.WriteString("\n")
 	}
+	// macro names are not restricted to ASCII letters
+	g.odd = g.r.chance(25)
+	if g.odd {
+		b.WriteString("$(\u0434\u043e\u043c\u0435\u043d) = example.org\n$(a+b) = sum\n")
+	}
 	g.snippets = g.r.intn(4)
 	for i := 0; i < g.snippets; i++ {
 		fmt.Fprintf(&b, "(s%d) {\n", i)
@@ -380,6 +389,12 @@ func TestVerif_C20(t *testing.T) {
 		"(s) x {\n}\n", "a {\n (s) {\n }\n}\n", "import nothere\n", "import\n", "import a b\n", "a {env:VERIF_A} \"{env:UNSET}\" {env:VERIF_NEST}\n",
 		"{env:VERIF_A} x\n", "a {env:X$Y}\n", "a { b { c { d } } }\n", "a {\n b {\n c\n }\n}\nd\n", "a\r\nb\r\n", "\ufeffa b\n", "a\u00a0b c\n", "9a\n", "a$b\n", "a.b-c_d e\n",
 		"a {\n} b\n", "a {\n}\n}\n", "a \"x\\\ny\"\nb\n", "a \"{\" \"}\"\n", "a { \"}\" }\n", "a {\nb }\nc\n", "a \\ {\n b\n}\n", "a x \\\n {\n b\n}\n",
+		// imports below the top level of a snippet body: found only when the spliced body is walked again
+		"(inner) {\n a 1\n}\n(outer) {\n blk {\n  import inner\n }\n}\nimport outer\n",
+		"(inner) {\n a 1\n}\n(outer) {\n x\n blk {\n  sub {\n   import inner\n  }\n }\n}\ntop {\n import outer\n}\n",
+		"(outer) {\n blk {\n  import nosuch\n }\n}\nimport outer\n",
+		"(s) {\n blk {\n  import s\n }\n}\nimport s\n",
+		"(i1) {\n a\n}\n(i2) {\n import i1\n}\n(o) {\n b {\n  import i2\n }\n c\n}\nimport o\nimport o\n",
 		strings.Repeat("a {\n", 300) + strings.Repeat("}\n", 300),
 		strings.Repeat("a {\n", 250) + strings.Repeat("}\n", 250),
 	}
